@@ -91,8 +91,10 @@ type Deviation struct {
 	Arg    string `json:"arg"`    // the written target path
 	// Target is the path of the target as the dump prints it ("/b/t/input"); Missing: the path is
 	// meant not to resolve.
-	Target  string `json:"target"`
-	Missing bool   `json:"missing,omitempty"`
+	Target string `json:"target"`
+	// TargetMod is the full name (name or name@revision) of the module whose tree holds the target.
+	TargetMod string `json:"target_mod"`
+	Missing   bool   `json:"missing,omitempty"`
 	// Implicit: the target is an rpc input / output that the base does not write (the path lookup
 	// creates it).
 	Implicit bool      `json:"implicit,omitempty"`
@@ -273,6 +275,9 @@ func c08Base(kind string, props [][2]string) (text string, arg string, target st
 }
 
 func c08One(label, combo, baseText string, devs []Deviation, mods []string, ignoreNS bool) C08Case {
+	for i := range devs {
+		devs[i].TargetMod = "b"
+	}
 	c := C08Case{Label: label, Combo: combo, BaseNames: []string{"b.yang"}, BaseTexts: []string{baseText}, Devs: devs,
 		DevMods: mods, IgnoreNS: ignoreNS}
 	for _, m := range mods {
@@ -521,23 +526,30 @@ func (n *Node) kid(kw string) (string, bool) {
 // are made to fit what the base writes on the target (so that many sets apply cleanly); the
 // rest are left as drawn.
 func C08Random(r *rand.Rand) C08Case {
-	cfg := Default()
-	cfg.Deviations = false
-	cfg.BadRefs = false
-	cfg.MaxModules = 2
+	// spelled out (not Default()), so that later additions to the shared generator do not change these sets
+	cfg := Config{MaxModules: 2, Submodules: true, Augments: true, RPCs: true, Choices: true, Groupings: true, MaxDepth: 3,
+		ConfigStmts: true, Notification: true, Typedefs: true, Revisions: true}
 	set := Generate(r, cfg)
 	g := &genr{r: r, cfg: cfg}
 	c := C08Case{Label: "random"}
 	c.BaseNames, c.BaseTexts = set.Files()
 	var imports [][2]string
 	type tgt struct {
-		arg, dump, kw string
-		n             *Node
+		arg, dump, kw, mod string
+		n                  *Node
 	}
 	var tgts []tgt
 	for _, m := range set.Mods {
-		if m.Sub {
+		if m.Sub || m.File != "" {
+			// (m.File is set for the older second revision of a module: an import without
+			// revision-date means the latest one, so deviations reach only that)
 			continue
+		}
+		full := m.Name
+		if len(m.Revisions) > 0 {
+			revs := append([]string{}, m.Revisions...)
+			sort.Strings(revs)
+			full = m.Name + "@" + revs[len(revs)-1]
 		}
 		imports = append(imports, [2]string{m.Name, "i" + m.Name})
 		var nodes []c08Node
@@ -558,7 +570,7 @@ func C08Random(r *rand.Rand) C08Case {
 				}
 				d.WriteString("/" + n)
 			}
-			tgts = append(tgts, tgt{pathString(p.SchemaPath, "i"+m.Name, true), d.String(), p.Kw, p.n})
+			tgts = append(tgts, tgt{pathString(p.SchemaPath, "i"+m.Name, true), d.String(), p.Kw, full, p.n})
 		}
 	}
 	sort.SliceStable(tgts, func(i, j int) bool { return tgts[i].dump < tgts[j].dump })
@@ -588,7 +600,7 @@ func C08Random(r *rand.Rand) C08Case {
 				if g.chance(0.5) {
 					t = pool[r.Intn(len(pool))]
 				}
-				d.Arg, d.Target = t.arg, t.dump
+				d.Arg, d.Target, d.TargetMod = t.arg, t.dump, t.mod
 				ns := 1 + r.Intn(3)
 				for j := 0; j < ns; j++ {
 					d.Stmts = append(d.Stmts, g.c08Stmt(t.kw, t.n))
